@@ -461,6 +461,15 @@ Section Below.
     destruct (gpos_inj _ _ _ _ _ A B C D E) as [_ E2]. fold sbo in E2. lia.
   Qed.
 
+  Lemma posS_row_neq j b j' b' : j <= rd -> b < 2 ^ j -> j' <= rd -> b' < 2 ^ j' -> j <> j' ->
+    posS j b <> posS j' b'.
+  Proof.
+    intros Hj Hb Hj' Hb' Hne E.
+    destruct (posS_valid j b Hj Hb) as [A B].
+    destruct (posS_valid j' b' Hj' Hb') as [C D].
+    destruct (gpos_inj _ _ _ _ _ A B C D E) as [E1 _]. lia.
+  Qed.
+
   (** where [calcNextPosition] sends the positions below the sibling *)
   Lemma next_posS j b : j <= rd -> b < 2 ^ j ->
     calcNextPosition (posS j b) (gpos T rd od) T = Some (posU j b).
@@ -584,15 +593,6 @@ Section MUD.
     mi_K3 : forall h, cached_has HO (snd cur) h = cached_has HO ca0 h }.
   Unset Implicit Arguments.
 
-  Lemma posS_row_neq j b j' b' : j <= rd -> b < 2 ^ j -> j' <= rd -> b' < 2 ^ j' -> j <> j' ->
-    pS j b <> pS j' b'.
-  Proof.
-    intros Hj Hb Hj' Hb' Hne E.
-    destruct (posS_valid T rd od HT Hrd Hod j b Hj Hb) as [A B].
-    destruct (posS_valid T rd od HT Hrd Hod j' b' Hj' Hb') as [C D].
-    destruct (gpos_inj _ _ _ _ _ A B C D E) as [E1 _]. lia.
-  Qed.
-
   Lemma mud_step i (C : list N) (cur : maps H) : 1 <= i -> i <= rd ->
     (forall p, In p C <-> exists c, c < 2 ^ (i + 1) /\ p = pU (i + 1) c) ->
     mud_inv i cur -> mud_inv (i + 1) (fold_left (mv H HO nxp) C cur).
@@ -680,7 +680,7 @@ Section MUD.
           assert (Hsto : nodes_get (fst cur) c <> None) by (rewrite (Hsrc c Hc), Ev'; discriminate).
           destruct (Hst c Hc Hsto) as (b2 & Hb2 & ->).
           pose proof (Huniq _ _ v' v Ev' Ev Eh ltac:(rewrite Eh; exact Hhas)) as E.
-          revert E. apply posS_row_neq; try assumption; lia.
+          revert E. apply (posS_row_neq T rd od HT Hrd Hod); try assumption; lia.
     - (* K2 *)
       intros h Hno. rewrite C1.
       + apply (mi_K2 I). intros j b v Hj1 Hj Hb'. apply Hno; [exact Hj1|lia|exact Hb'].
@@ -877,6 +877,20 @@ Section ForgetBelow.
   Qed.
 End ForgetBelow.
 (** * 5. [updateHashes] *)
+Lemma bounded_dec (P : N -> Prop) : (forall j, P j \/ ~ P j) -> forall J,
+  (exists j, 1 <= j /\ j <= J /\ P j) \/ (forall j, 1 <= j -> j <= J -> ~ P j).
+Proof.
+  intros Hdec J. induction J as [|J IH] using N.peano_ind.
+  - right. intros j A B. lia.
+  - destruct IH as [(j & A & B & C)|Hno].
+    + left. exists j. repeat split; try assumption. lia.
+    + destruct (Hdec (N.succ J)) as [Hp|Hn].
+      * left. exists (N.succ J). repeat split; try assumption; lia.
+      * right. intros j A B. destruct (N.eq_dec j (N.succ J)) as [->|Hne]; [exact Hn|].
+        apply Hno; lia.
+Qed.
+
+
 Lemma div_pow2_S o j : o / 2 / 2 ^ j = o / 2 ^ (j + 1).
 Proof. rewrite pow2_S, N.div_div by (try apply pow2_nz; lia). reflexivity. Qed.
 
@@ -1041,6 +1055,27 @@ Section UpdateHashes.
            exfalso. apply (Hp 1); [lia|lia|reflexivity].
         -- intros j Hj1 Hj. rewrite Hanc. apply Hp; lia.
       * intros Hk. apply I4, K1, Hk.
+  Qed.
+
+  Lemma uh_chain_src (fuel : nat) (J : N) r0 o0 (newh hs : N -> H) (nd : nodemap H) :
+    1 <= J -> J <= N.of_nat fuel -> r0 + J <= T -> o0 < 2 ^ (T - r0) ->
+    (forall j, 1 <= j -> j < J -> isRootPositionTotalRows (anc r0 o0 j) n T = false) ->
+    isRootPositionTotalRows (anc r0 o0 J) n T = true ->
+    (forall j, j < J -> exists b, nodes_get nd (sibling (anc r0 o0 j)) = Some (hs j, b)) ->
+    (forall j, j < J -> newh (j + 1) = if N.even (o0 / 2 ^ j) then hash2 (newh j) (hs j)
+                                         else hash2 (hs j) (newh j)) ->
+    forall p v, nodes_get (uh_loop HO fuel n T full r0 (gpos T r0 o0) (newh 0) nd) p = Some v ->
+      (exists j, 1 <= j /\ j <= J /\ p = anc r0 o0 j /\ nodes_get nd p <> None /\ v = (newh j, full)) \/
+      (nodes_get nd p = Some v /\ forall j, 1 <= j -> j <= J -> p <> anc r0 o0 j).
+  Proof.
+    intros A1 A2 A3 A4 A5 A6 A7 A8 p v E.
+    destruct (uh_chain fuel J r0 o0 newh hs nd A1 A2 A3 A4 A5 A6 A7 A8) as (U1 & U2 & U3 & _).
+    destruct (bounded_dec (fun j => p = anc r0 o0 j) (fun j => match N.eq_dec p (anc r0 o0 j) with left e => or_introl e | right e => or_intror e end) J)
+      as [(j & B1 & B2 & ->)|Hno].
+    - left. exists j. destruct (nodes_get nd (anc r0 o0 j)) as [w|] eqn:Ew.
+      + rewrite U1 in E by (try assumption; congruence). repeat split; try assumption; congruence.
+      + rewrite (U2 _ Ew) in E. discriminate.
+    - right. rewrite U3 in E by exact Hno. auto.
   Qed.
 End UpdateHashes.
 (** * 6. The reference forest after the deletion of a whole subtree *)
@@ -1552,3 +1587,637 @@ Section RefLayout.
   Qed.
 
 End RefLayout.
+(** * 8. Nodes of the layout and their positions; the invariant *)
+Lemma under_dec c d : {under c d} + {~ under c d}.
+Proof.
+  unfold under. destruct (le_dec (fst d) (fst c)) as [Hle|Hn]; [|right; tauto].
+  destruct (N.eq_dec (snd d / p2 (fst c - fst d)) (snd c)) as [E|E]; [left; auto|right; tauto].
+Qed.
+
+Section NodeGeo.
+  Variable H : Type.
+  Variable HO : ops H.
+  Variable s : slots H.
+  Variable T : N.
+  Notation lay := (layout HO s).
+  Notation n := (N.of_nat (length s)).
+  Notation tr := (TreeRows (N.of_nat (length s))).
+  Hypothesis Hn63 : n <= 2 ^ 63.
+  Hypothesis HTlo : tr <= T.
+  Hypothesis HT63 : T <= 63.
+  Notation gpx := (fun x : node H => gp T (nrow x) (noff x)).
+
+  Lemma ng_valid x : In x lay -> N.of_nat (nrow x) <= T /\ noff x < 2 ^ (T - N.of_nat (nrow x)).
+  Proof.
+    exact (nodeh_valid H HO s T Hn63 HTlo HT63 [] (fun x Hx => match Hx with end)
+             (fun x Hx => match Hx with end) x).
+  Qed.
+
+  Lemma ng_valid_min x : In x lay ->
+    N.of_nat (nrow x) <= tr /\ noff x < 2 ^ (tr - N.of_nat (nrow x)).
+  Proof.
+    intros Hx. destruct (layout_coords_rows_of H HO s x Hx) as [Hr Ho].
+    pose proof (pc_rows_of H s) as E. rewrite E in Ho. split; [lia|exact Ho].
+  Qed.
+
+  Lemma ng_inj x y : In x lay -> In y lay -> gpx x = gpx y -> x = y.
+  Proof.
+    exact (nodeh_gp_eq H HO s T Hn63 HTlo HT63 [] (fun x Hx => match Hx with end)
+             (fun x Hx => match Hx with end) x y).
+  Qed.
+
+  Lemma ng_coord_eq x y : In x lay -> In y lay -> coord x = coord y -> x = y.
+  Proof.
+    intros Hx Hy E. unfold coord in E. injection E as Er Eo. pose proof (tnode_in H HO s x Hx) as Ex.
+    pose proof (tnode_in H HO s y Hy) as Ey. rewrite Er, Eo in Ex. congruence.
+  Qed.
+
+  Lemma ng_range x : In x lay -> gpx x <= 2 ^ (T + 1) - 2.
+  Proof. intros Hx. destruct (ng_valid x Hx) as [A B]. unfold gp. apply gpos_range; assumption. Qed.
+
+  Lemma ng_isroot_min r o : r <= tr -> o < 2 ^ (tr - r) ->
+    isRootPosition (gpos tr r o) n = is_root_c n (r, o).
+  Proof.
+    intros Hr Ho. pose proof (TreeRows_le_63 n Hn63) as Htr.
+    unfold isRootPosition. rewrite DetectRow_gpos by assumption.
+    unfold is_root_c. cbn [fst snd].
+    destruct (isRootPositionOnRow (gpos tr r o) n r) eqn:E.
+    - apply isRootPositionOnRow_spec in E as [Hb Ep]; [|exact Hn63]. rewrite Hb. cbn [andb].
+      destruct (root_coord_valid n r tr (TreeRows_upper n) Hb) as [Hk Hv].
+      destruct (gpos_inj tr _ _ _ _ Hr Ho Hk Hv Ep) as [_ ->]. symmetry. apply N.eqb_refl.
+    - destruct (N.testbit n r) eqn:Hb; [|reflexivity]. cbn [andb].
+      destruct (N.eqb_spec o (2 * (n / 2 ^ (r + 1)))) as [Eo|]; [|reflexivity].
+      assert (Ht : isRootPositionOnRow (gpos tr r o) n r = true).
+      { apply isRootPositionOnRow_spec; [exact Hn63|]. split; [exact Hb|]. rewrite Eo. reflexivity. }
+      congruence.
+  Qed.
+
+  Lemma ng_isroot x : In x lay -> isRootPositionTotalRows (gpx x) n T = nroot x.
+  Proof.
+    intros Hx. destruct (ng_valid x Hx) as [A B]. destruct (ng_valid_min x Hx) as [C D].
+    pose proof (TreeRows_le_63 n Hn63) as Htr.
+    rewrite <- (node_is_root_c H HO s x Hx). unfold isRootPositionTotalRows, gp.
+    destruct (N.eqb_spec T tr) as [E|E].
+    - rewrite E. apply ng_isroot_min; assumption.
+    - rewrite translatePos_gpos by assumption. apply ng_isroot_min; assumption.
+  Qed.
+
+  (** nodes of one tree *)
+  Lemma ng_same_tree x y : In x lay -> In y lay -> under (coord x) (coord y) -> ntree y = ntree x.
+  Proof.
+    intros Hx Hy U. destruct (under_range H x y U) as (A & B & _).
+    destruct (layout_entry H HO s x Hx) as (k & lo & t & He & Hxe).
+    destruct (layout_entry H HO s y Hy) as (k2 & lo2 & t2 & He2 & Hye).
+    destruct (layout_same_entry H HO s _ _ _ _ _ _ x y He He2 Hxe Hye A B) as (<- & <- & <-).
+    assert (G : forall z, In z (place_entry HO (k, lo, t)) -> ntree z = k).
+    { intros z Hz. cbn [place_entry] in Hz. destruct t as [c|].
+      - exact (place_tree_ntree H _ _ _ _ _ _ Hz).
+      - destruct Hz as [<-|[]]. reflexivity. }
+    rewrite (G x Hxe), (G y Hye). reflexivity.
+  Qed.
+
+  (** no node lies strictly below a leaf node *)
+  Lemma ng_leaf_bottom x y : In x lay -> In y lay -> nleaf x = true -> under (coord x) (coord y) -> y = x.
+  Proof.
+    intros Hx Hy Lx U. destruct (under_range H x y U) as (A & B & _).
+    destruct (layout_entry H HO s x Hx) as (k & lo & t & He & Hxe).
+    destruct (layout_entry H HO s y Hy) as (k2 & lo2 & t2 & He2 & Hye).
+    destruct (layout_same_entry H HO s _ _ _ _ _ _ x y He He2 Hxe Hye A B) as (<- & <- & <-).
+    destruct U as [Hr E]. unfold coord in Hr, E. cbn [fst snd] in Hr, E.
+    destruct (Nat.eq_dec (nrow y) (nrow x)) as [Er|Hne].
+    - apply ng_coord_eq; [exact Hy|exact Hx|]. unfold coord. rewrite Er in *.
+      rewrite Nat.sub_diag, p2_0, N.div_1_r in E. congruence.
+    - exfalso. cbn [place_entry] in Hxe, Hye. destruct t as [c|].
+      + apply (place_tree_leaf_bottom H c _ _ _ _ x y Hxe Hye Lx); [lia|exact A|exact B].
+      + destruct Hxe as [<-|[]]. discriminate Lx.
+  Qed.
+
+  (** a root does not lie below a node that is no root *)
+  Lemma ng_root_top x y : In x lay -> In y lay -> nroot x = false -> nroot y = true ->
+    under (coord x) (coord y) -> False.
+  Proof.
+    intros Hx Hy Rx Ry U. pose proof (ng_same_tree x y Hx Hy U) as Et.
+    apply (root_iff_row H HO s y Hy) in Ry. apply (nonroot_iff_row H HO s Hn63 x Hx) in Rx.
+    destruct U as [Hr _]. unfold coord in Hr. cbn [fst] in Hr. lia.
+  Qed.
+
+  (** a non-root node, its sibling and its parent *)
+  Lemma ng_family x : In x lay -> nroot x = false ->
+    exists p sb, In p lay /\ In sb lay /\ nroot sb = false /\ nleaf p = false /\
+      coord sb = (nrow x, N.lxor (noff x) 1) /\ coord p = (S (nrow x), noff x / 2) /\
+      ntree p = ntree x /\ ntree sb = ntree x /\
+      nhash p = (if N.even (noff x) then op_hash2 HO (nhash x) (nhash sb)
+                 else op_hash2 HO (nhash sb) (nhash x)).
+  Proof.
+    intros Hx Hr.
+    destruct (node_sibling H HO s _ _ x (tnode_in H HO s x Hx) Hr)
+      as (p & sb & Hp & Hsb & Hpl & Hpt & Hst & Hsr & Hh).
+    apply tnode_some in Hp as (Hpin & Epr & Epo). apply tnode_some in Hsb as (Hsin & Esr & Eso).
+    exists p, sb. unfold coord. repeat split; try assumption; congruence.
+  Qed.
+
+  (** the chain of ancestors *)
+  Lemma ng_ancestor x : In x lay -> forall k : nat, (nrow x + k <= ntree x)%nat ->
+    exists y, In y lay /\ coord y = ((nrow x + k)%nat, noff x / 2 ^ N.of_nat k) /\
+              ntree y = ntree x /\ (k <> 0%nat -> nleaf y = false).
+  Proof.
+    intros Hx. induction k as [|k IH]; intros Hk.
+    - exists x. unfold coord. rewrite Nat.add_0_r, N.pow_0_r, N.div_1_r.
+      repeat split; auto. intros C. contradiction.
+    - destruct (IH ltac:(lia)) as (y & Hy & Ey & Ety & _).
+      unfold coord in Ey. injection Ey as Er Eo.
+      assert (Hnr : nroot y = false) by (apply (nonroot_iff_row H HO s Hn63 y Hy); lia).
+      destruct (node_parent H HO s _ _ y (tnode_in H HO s y Hy) Hnr) as (p & Hp & Hpl & Hpt & _).
+      apply tnode_some in Hp as (Hpin & Epr & Epo). exists p. split; [exact Hpin|].
+      split; [|split; [congruence|auto]]. unfold coord. rewrite Epr, Epo, Er, Eo.
+      f_equal; [lia|]. rewrite Nat2N.inj_succ, <- N.add_1_r, N.pow_add_r, N.pow_1_r.
+      rewrite N.div_div by (try apply pow2_nz; lia). reflexivity.
+  Qed.
+End NodeGeo.
+
+Section Invariant.
+  Variable H : Type.
+  Variable HO : ops H.
+  Notation hash2 := (op_hash2 HO).
+  Notation empty := (op_empty HO).
+
+  (** [Rc]: the cached leaves; [Rn]: the leaves that the node map remembers (flag); between the
+      un-caching of the deleted leaves and the end of [remove] the two differ *)
+  Record Inv2 (s : slots H) (Rc Rn : list H) (m : mstate H) : Prop := mkInv2 {
+    i_n : ms_n m = num_leaves s;
+    i_n63 : ms_n m <= 2 ^ 63;
+    i_rows : TreeRows (ms_n m) <= ms_total m;
+    i_T63 : ms_total m <= 63;
+    i_live_nd : NoDup (live s);
+    i_live_nn : forall h a b, In (Some h) s -> h <> hash2 a b;
+    i_live_nz : forall h, In (Some h) s -> h <> empty;
+    i_keys : NoDup (map fst (ms_nodes m));
+    i_ckeys : NoDup (map fst (ms_cached m));
+    i_true : forall p h b, nodes_get (ms_nodes m) p = Some (h, b) ->
+      exists x, In x (layout HO s) /\ p = gp (ms_total m) (nrow x) (noff x) /\ nhash x = h;
+    i_Rn : forall h, In h Rn -> In (Some h) s;
+    i_sub : forall h, In h Rc -> In h Rn;
+    i_cached : forall h p, cached_get HO (ms_cached m) h = Some p <->
+      In h Rc /\ exists x, In x (layout HO s) /\ nleaf x = true /\ nhash x = h /\
+                           p = gp (ms_total m) (nrow x) (noff x);
+    i_roots : forall x, In x (layout HO s) -> nroot x = true ->
+      nodes_get (ms_nodes m) (gp (ms_total m) (nrow x) (noff x)) <> None;
+    i_leaf : forall x, In x (layout HO s) -> nleaf x = true -> In (nhash x) Rn ->
+      nodes_get (ms_nodes m) (gp (ms_total m) (nrow x) (noff x)) = Some (nhash x, true);
+    i_sibs : forall x, In x (layout HO s) -> nleaf x = true -> In (nhash x) Rn ->
+      forall k : nat, (nrow x + k < ntree x)%nat ->
+      nodes_get (ms_nodes m)
+        (gp (ms_total m) (nrow x + k) (N.lxor (noff x / 2 ^ N.of_nat k) 1)) <> None }.
+
+  Definition Inv (s : slots H) (R : list H) (m : mstate H) : Prop := Inv2 s R R m.
+End Invariant.
+Arguments i_n {H HO s Rc Rn m} _.
+Arguments i_n63 {H HO s Rc Rn m} _.
+Arguments i_rows {H HO s Rc Rn m} _.
+Arguments i_T63 {H HO s Rc Rn m} _.
+Arguments i_live_nd {H HO s Rc Rn m} _.
+Arguments i_live_nn {H HO s Rc Rn m} _.
+Arguments i_live_nz {H HO s Rc Rn m} _.
+Arguments i_keys {H HO s Rc Rn m} _.
+Arguments i_ckeys {H HO s Rc Rn m} _.
+Arguments i_true {H HO s Rc Rn m} _.
+Arguments i_Rn {H HO s Rc Rn m} _.
+Arguments i_sub {H HO s Rc Rn m} _.
+Arguments i_cached {H HO s Rc Rn m} _.
+Arguments i_roots {H HO s Rc Rn m} _.
+Arguments i_leaf {H HO s Rc Rn m} _.
+Arguments i_sibs {H HO s Rc Rn m} _.
+Arguments Inv2 {H} HO s Rc Rn m.
+Arguments Inv {H} HO s R m.
+
+Section InvConsistent.
+  Variable H : Type.
+  Variable HO : ops H.
+  Hypothesis HOK : ops_ok HO.
+
+  Lemma path_up_form (lay : list (node H)) : forall f r o tr c, In c (path_up f lay r o tr) ->
+    exists k : nat, c = ((r + k)%nat, o / 2 ^ N.of_nat k).
+  Proof.
+    induction f as [|f IH]; intros r o tr c Hc.
+    - destruct Hc as [<-|[]]. exists 0%nat. rewrite Nat.add_0_r, N.pow_0_r, N.div_1_r. reflexivity.
+    - cbn [path_up] in Hc. destruct Hc as [<-|Hc].
+      + exists 0%nat. rewrite Nat.add_0_r, N.pow_0_r, N.div_1_r. reflexivity.
+      + destruct (r <? tr)%nat; [|destruct Hc]. destruct (IH _ _ _ _ Hc) as [k ->]. exists (S k).
+        f_equal; [lia|]. rewrite Nat2N.inj_succ, <- N.add_1_r, N.add_comm, N.pow_add_r, N.pow_1_r.
+        rewrite N.div_div by (try apply pow2_nz; lia). reflexivity.
+  Qed.
+
+  (** leaf hashes are hashes of leaf nodes only *)
+  Lemma inv_leaf_hash s Rc Rn m : Inv2 HO s Rc Rn m -> forall y z, In y (layout HO s) ->
+    In z (layout HO s) -> nleaf z = true -> nhash y = nhash z -> y = z.
+  Proof.
+    intros I y z Hy Hz Lz E. pose proof (layout_leaf_live H HO s z Hz Lz) as Hlive.
+    destruct (node_cases H HO s _ _ y (tnode_in H HO s y Hy))
+      as [r' xl xr _ _ _ _ Hh|Ly _ _|_ _ He].
+    - exfalso. apply (i_live_nn I _ (nhash xl) (nhash xr) Hlive). congruence.
+    - exact (live_leaf_unique H HO s y z (i_live_nd I) Hy Hz Ly Lz E).
+    - exfalso. apply (i_live_nz I _ Hlive). congruence.
+  Qed.
+
+  Theorem Inv2_consistent s R m : Inv2 HO s R R m -> consistent HO s R m.
+  Proof.
+    intros I. constructor.
+    - exact (i_n I).
+    - exact (i_n63 I).
+    - exact (i_rows I).
+    - exact (i_T63 I).
+    - intros p h b Hin. apply (rg_in_get H _ _ _ (i_keys I)) in Hin.
+      destruct (i_true I _ _ _ Hin) as (x & Hx & -> & Eh). exists (nrow x), (noff x).
+      split; [reflexivity|]. apply thash_some. exists x. split; [apply tnode_in, Hx|exact Eh].
+    - exact (i_Rn I).
+    - intros h. split.
+      + intros Hh. destruct (live_leaf_in_layout H HO s h (i_Rn I h Hh)) as (x & Hx & Lx & Ex).
+        assert (E : cached_get HO (ms_cached m) h = Some (gp (ms_total m) (nrow x) (noff x))).
+        { apply (i_cached I). split; [exact Hh|]. exists x. auto. }
+        apply (cached_get_In H HO HOK) in E. apply in_map_iff. exists (h, gp (ms_total m) (nrow x) (noff x)). auto.
+      + intros Hh. destruct (cached_get_some_of_key H HO HOK _ _ Hh) as [p Ep].
+        apply (i_cached I) in Ep. apply Ep.
+    - intros h p Hin. apply (cg_in_get H HO HOK _ _ _ (i_ckeys I)) in Hin.
+      apply (i_cached I) in Hin as (Hh & x & Hx & Lx & Ex & ->).
+      destruct (find_leaf_ex H HO (layout HO s) h HOK) as [x' Hx']; [exists x; auto|].
+      exists x'. split; [exact Hx'|]. apply (find_leaf_some H HO _ _ _ HOK) in Hx' as (Hx'in & Lx' & Ex').
+      rewrite (live_leaf_unique H HO s x x' (i_live_nd I) Hx Hx'in Lx Lx' ltac:(congruence)). reflexivity.
+    - intros x Hx Hr. exact (i_roots I x Hx Hr).
+    - intros ts Hts x Hx. apply (RefTheory.find_leaves_In H HO _ _ _ Hts) in Hx as (h & Hh & Hf).
+      apply (find_leaf_some H HO _ _ _ HOK) in Hf as (Hxin & Lx & Ex). unfold stored.
+      rewrite (i_leaf I x Hxin Lx ltac:(rewrite Ex; exact Hh)). discriminate.
+    - intros ts Hts c Hc Hroot. apply RefTheory.known_set_In in Hc as (x & Hx & Hc).
+      apply (RefTheory.find_leaves_In H HO _ _ _ Hts) in Hx as (h & Hh & Hf).
+      apply (find_leaf_some H HO _ _ _ HOK) in Hf as (Hxin & Lx & Ex).
+      assert (Hn63 : N.of_nat (length s) <= 2 ^ 63).
+      { pose proof (i_n I) as En. pose proof (i_n63 I) as E63. unfold num_leaves in En. rewrite <- En. exact E63. }
+      destruct (path_nodes H HO s Hn63 64 x c Hxin Hc) as (y & Hy & Ety).
+      rewrite (is_root_coord_node H HO s c y Hy) in Hroot.
+      destruct (path_up_form _ _ _ _ _ _ Hc) as [k ->]. cbn [fst snd sib_coord] in *.
+      apply tnode_some in Hy as (Hyin & Eyr & Eyo).
+      apply (nonroot_iff_row H HO s Hn63 y Hyin) in Hroot.
+      unfold stored. apply (i_sibs I x Hxin Lx ltac:(rewrite Ex; exact Hh)). lia.
+  Qed.
+
+  Corollary Inv_consistent s R m : Inv HO s R m -> consistent HO s R m.
+  Proof. exact (Inv2_consistent s R m). Qed.
+
+  (** the empty forest *)
+  Lemma Inv_empty T full : T <= 63 -> Inv HO [] [] (mkM [] [] 0 T full).
+  Proof.
+    intros HT. constructor; cbn [ms_n ms_total ms_nodes ms_cached layout forest].
+    - reflexivity.
+    - lia.
+    - rewrite TreeRows_0. lia.
+    - exact HT.
+    - constructor.
+    - intros h a b [].
+    - intros h [].
+    - constructor.
+    - constructor.
+    - intros p h b E. discriminate.
+    - intros h [].
+    - intros h [].
+    - intros h p. split; [discriminate|]. intros ([] & _).
+    - intros x [].
+    - intros x [].
+    - intros x [].
+  Qed.
+End InvConsistent.
+(** decidability of the membership of a position in the two families *)
+Section BelowDec.
+  Variables T rd od : N.
+  Hypothesis HT : T <= 63.
+  Hypothesis Hrd : rd < T.
+  Hypothesis Hod : od < 2 ^ (T - rd).
+
+  Lemma posU_dec p : (exists j b, j <= rd + 1 /\ b < 2 ^ j /\ p = posU T rd od j b) \/
+                     (forall j b, j <= rd + 1 -> b < 2 ^ j -> p <> posU T rd od j b).
+  Proof.
+    destruct (N.le_gt_cases p (2 ^ (T + 1) - 2)) as [Hle|Hgt].
+    - destruct (mrs_gpos_surj T p Hle) as (r & o & Hr & Ho & ->).
+      destruct (N.le_gt_cases r (rd + 1)) as [Hrr|Hrr].
+      + destruct (N.eq_dec (o / 2 ^ (rd + 1 - r)) (od / 2)) as [E|E].
+        * left. exists (rd + 1 - r), (o mod 2 ^ (rd + 1 - r)).
+          split; [lia|]. split; [apply N.mod_lt, pow2_nz|].
+          unfold posU. replace (rd + 1 - (rd + 1 - r)) with r by lia. f_equal.
+          rewrite <- E. rewrite N.mul_comm. apply N.div_mod'.
+        * right. intros j b Hj Hb Ep. apply E.
+          destruct (posU_valid T rd od HT Hrd Hod j b Hj Hb) as [A B].
+          destruct (gpos_inj T _ _ _ _ Hr Ho A B Ep) as [-> ->].
+          replace (rd + 1 - (rd + 1 - j)) with j by lia.
+          rewrite N.div_add_l by apply pow2_nz. rewrite (N.div_small b) by exact Hb. lia.
+      + right. intros j b Hj Hb Ep.
+        destruct (posU_valid T rd od HT Hrd Hod j b Hj Hb) as [A B].
+        destruct (gpos_inj T _ _ _ _ Hr Ho A B Ep) as [-> _]. lia.
+    - right. intros j b Hj Hb ->.
+      destruct (posU_valid T rd od HT Hrd Hod j b Hj Hb) as [A B].
+      pose proof (gpos_range T _ _ A B) as Hrange. unfold posU in Hgt. lia.
+  Qed.
+End BelowDec.
+
+(** * 9. [removeSingle] on a position that is no root: the moves *)
+Section RemoveSingleMoves.
+  Variable H : Type.
+  Variable HO : ops H.
+  Hypothesis HOK : ops_ok HO.
+  Variables n T rd od : N.
+  Variable full : bool.
+  Hypothesis HT : T <= 63.
+  Hypothesis Hrd : rd < T.
+  Hypothesis Hod : od < 2 ^ (T - rd).
+  Notation del := (gpos T rd od).
+  Notation sibp := (gpos T rd (N.lxor od 1)).
+  Notation par := (gpos T (rd + 1) (od / 2)).
+  Notation pU := (posU T rd od).
+  Notation pS := (posS T rd od).
+  Notation pD := (posD T rd od).
+
+  Lemma rs_pS0 : pS 0 0 = sibp.
+  Proof. unfold posS. rewrite N.sub_0_r, N.pow_0_r, N.mul_1_r, N.add_0_r. reflexivity. Qed.
+  Lemma rs_pD0 : pD 0 0 = del.
+  Proof. unfold posD. rewrite N.sub_0_r, N.pow_0_r, N.mul_1_r, N.add_0_r. reflexivity. Qed.
+  Lemma rs_pU0 : pU 0 0 = par.
+  Proof. unfold posU. rewrite N.sub_0_r, N.pow_0_r, N.mul_1_r, N.add_0_r. reflexivity. Qed.
+
+  Lemma rs_par_neq_U j b : 1 <= j -> j <= rd + 1 -> b < 2 ^ j -> par <> pU j b.
+  Proof.
+    intros Hj1 Hj Hb E. rewrite <- rs_pU0 in E.
+    destruct (posU_inj T rd od HT Hrd Hod 0 0 j b ltac:(lia) ltac:(cbn; lia) Hj Hb E). lia.
+  Qed.
+
+  Lemma rs_S_neq_D j b j' b' : j <= rd -> b < 2 ^ j -> j' <= rd -> b' < 2 ^ j' -> pS j b <> pD j' b'.
+  Proof.
+    intros Hj Hb Hj' Hb' E.
+    destruct (posS_valid T rd od HT Hrd Hod j b Hj Hb) as [A B].
+    destruct (posD_valid T rd od HT Hrd Hod j' b' Hj' Hb') as [C D].
+    destruct (gpos_inj _ _ _ _ _ A B C D E) as [E1 E2]. assert (j = j') by lia. subst j'.
+    pose proof (lxor_1 od) as Hx. destruct (N.even od) eqn:Ev.
+    - rewrite Hx in E2. nia.
+    - pose proof (odd_nz _ Ev). rewrite Hx in E2. nia.
+  Qed.
+
+  Variable nd : nodemap H.
+  Variable ca : cachemap H.
+  Variable vsb : leaf H.
+  Hypothesis Hk1 : NoDup (map fst nd).
+  Hypothesis Hk2 : NoDup (map fst ca).
+  Hypothesis Hnroot : isRootPositionTotalRows del n T = false.
+  Hypothesis Hsb : nodes_get nd sibp = Some vsb.
+  Hypothesis Huniq : forall q1 q2 v1 v2, nodes_get nd q1 = Some v1 -> nodes_get nd q2 = Some v2 ->
+    fst v1 = fst v2 -> cached_has HO ca (fst v1) = true -> q1 = q2.
+
+  (** the state after the moves of [removeSingle], before [updateHashes] *)
+  Set Implicit Arguments.
+  Record moved (nd3 : nodemap H) (ca3 : cachemap H) : Prop := mkMoved {
+    mo_k1 : NoDup (map fst nd3);
+    mo_k2 : NoDup (map fst ca3);
+    mo_par : nodes_get nd3 par = Some vsb;
+    mo_up : forall j b, 1 <= j -> j <= rd -> b < 2 ^ j -> nodes_get nd3 (pU j b) = nodes_get nd (pS j b);
+    mo_bot : forall b, b < 2 ^ (rd + 1) -> nodes_get nd3 (pU (rd + 1) b) = None;
+    mo_out : forall p, (forall j b, j <= rd + 1 -> b < 2 ^ j -> p <> pU j b) ->
+               nodes_get nd3 p = nodes_get nd p;
+    mo_cup : forall j b v, j <= rd -> b < 2 ^ j -> nodes_get nd (pS j b) = Some v ->
+               cached_has HO ca (fst v) = true -> cached_get HO ca3 (fst v) = Some (pU j b);
+    mo_cout : forall h, (forall j b v, j <= rd -> b < 2 ^ j -> nodes_get nd (pS j b) = Some v -> fst v <> h) ->
+               cached_get HO ca3 h = cached_get HO ca h;
+    mo_chas : forall h, cached_has HO ca3 h = cached_has HO ca h }.
+  Unset Implicit Arguments.
+
+  Lemma moved_src nd3 ca3 : moved nd3 ca3 -> forall p v, nodes_get nd3 p = Some v ->
+    (p = par /\ v = vsb) \/
+    (exists j b, 1 <= j /\ j <= rd /\ b < 2 ^ j /\ p = pU j b /\ nodes_get nd (pS j b) = Some v) \/
+    (nodes_get nd p = Some v /\ forall j b, j <= rd + 1 -> b < 2 ^ j -> p <> pU j b).
+  Proof.
+    intros M p v E. destruct (posU_dec T rd od HT Hrd Hod p) as [(j & b & Hj & Hb & ->)|Hno].
+    - destruct (N.eq_dec j 0) as [->|Hj0].
+      + assert (b = 0) by (cbn in Hb; lia). subst b. rewrite rs_pU0 in *. left.
+        rewrite (mo_par M) in E. split; [reflexivity|congruence].
+      + destruct (N.eq_dec j (rd + 1)) as [->|Hj1].
+        * rewrite (mo_bot M) in E by exact Hb. discriminate.
+        * right. left. exists j, b. rewrite (mo_up M) in E by (try assumption; lia).
+          repeat split; try assumption; lia.
+    - right. right. rewrite (mo_out M) in E by exact Hno. auto.
+  Qed.
+
+  Theorem removeSingle_moves :
+    exists nd3 ca3, moved nd3 ca3 /\
+      removeSingle HO n T full del (nd, ca) =
+      (forgetUnneededDel HO n T del (updateHashes HO n T full del (fst vsb) nd3), ca3).
+  Proof.
+    assert (Hrd' : rd <= T) by lia.
+    destruct (forgetBelow_spec H T HT rd od nd Hrd' Hod) as (B1 & B2 & B3).
+    set (nd0 := forgetBelow T del nd) in *.
+    set (nd1 := nodes_del del nd0).
+    assert (Esib : sibling del = sibp) by (apply sibling_gpos; lia).
+    assert (Epar : Parent del T = par) by (apply Parent_gpos; assumption).
+    assert (Hsv : N.lxor od 1 < 2 ^ (T - rd)) by (apply sib_offsets_lt; assumption).
+    assert (Hne_sd : sibp <> del).
+    { rewrite <- rs_pS0, <- rs_pD0. apply rs_S_neq_D; try lia; cbn; lia. }
+    assert (HbelowD : forall p, below T rd od p -> exists j b, 1 <= j /\ j <= rd /\ b < 2 ^ j /\ p = pD j b).
+    { intros p (j & b & A & B & C & E). exists j, b. auto. }
+    assert (G0S : forall j b, j <= rd -> b < 2 ^ j -> nodes_get nd0 (pS j b) = nodes_get nd (pS j b)).
+    { intros j b Hj Hb. destruct (B2 (pS j b)) as [E|[_ Hbl]]; [exact E|exfalso].
+      destruct (HbelowD _ Hbl) as (j' & b' & A & B & C & E). revert E. apply rs_S_neq_D; assumption. }
+    assert (E1 : nodes_get nd1 sibp = Some vsb).
+    { unfold nd1. rewrite rg_del. destruct (N.eqb_spec sibp del); [contradiction|].
+      rewrite <- rs_pS0. rewrite G0S by (try lia; cbn; lia). rewrite rs_pS0. exact Hsb. }
+    set (nd2 := nodes_put par vsb (nodes_del sibp nd1)).
+    assert (Hnext : calcNextPosition sibp del T = Some par).
+    { rewrite <- rs_pS0, <- rs_pU0. apply next_posS; try assumption; try lia; try (cbn; lia). }
+    set (ca2 := if cached_has HO ca (fst vsb) then cached_put HO (fst vsb) par ca else ca).
+    (* the node map before the moves *)
+    assert (G2 : forall p, nodes_get nd2 p =
+              if p =? par then Some vsb else if p =? sibp then None else if p =? del then None
+              else nodes_get nd0 p).
+    { intros p. unfold nd2, nd1. rewrite rg_put, !rg_del. reflexivity. }
+    assert (Hpar_S : forall j b, j <= rd -> b < 2 ^ j -> pS j b <> par).
+    { intros j b Hj Hb E. destruct (posS_U T rd od HT Hrd Hod j b Hj Hb) as (c & Hc & Ec).
+      rewrite Ec in E. symmetry in E. revert E. apply rs_par_neq_U; lia. }
+    assert (Hpar_D : forall j b, j <= rd -> b < 2 ^ j -> pD j b <> par).
+    { intros j b Hj Hb E. destruct (posD_U T rd od HT Hrd Hod j b Hj Hb) as (c & Hc & Ec).
+      rewrite Ec in E. symmetry in E. revert E. apply rs_par_neq_U; lia. }
+    assert (G2S : forall j b, 1 <= j -> j <= rd -> b < 2 ^ j -> nodes_get nd2 (pS j b) = nodes_get nd (pS j b)).
+    { intros j b Hj1 Hj Hb. rewrite G2.
+      destruct (N.eqb_spec (pS j b) par) as [E|_]; [exfalso; exact (Hpar_S j b Hj Hb E)|].
+      destruct (N.eqb_spec (pS j b) sibp) as [E|_].
+      { exfalso. rewrite <- rs_pS0 in E.
+        exact (posS_row_neq T rd od HT Hrd Hod j b 0 0 Hj Hb ltac:(lia) ltac:(cbn; lia) ltac:(lia) E). }
+      destruct (N.eqb_spec (pS j b) del) as [E|_].
+      { exfalso. rewrite <- rs_pD0 in E. revert E. apply rs_S_neq_D; try assumption; try lia; try (cbn; lia). }
+      apply G0S; assumption. }
+    assert (Hd2 : forall j b, j <= rd -> b < 2 ^ j -> nodes_get nd2 (pD j b) = None).
+    { intros j b Hj Hb. rewrite G2.
+      destruct (N.eqb_spec (pD j b) par) as [E|_]; [exfalso; exact (Hpar_D j b Hj Hb E)|].
+      destruct (N.eqb_spec (pD j b) sibp); [reflexivity|].
+      destruct (N.eqb_spec (pD j b) del); [reflexivity|].
+      destruct (N.eq_dec j 0) as [->|Hj0].
+      - exfalso. assert (b = 0) by (cbn in Hb; lia). subst b. rewrite rs_pD0 in *. congruence.
+      - apply B1. exists j, b. repeat split; try assumption; lia. }
+    assert (Hs2 : nodes_get nd2 sibp = None).
+    { rewrite G2. destruct (N.eqb_spec sibp par) as [E|_].
+      - exfalso. rewrite <- rs_pS0 in E. revert E. apply Hpar_S; try lia; try (cbn; lia).
+      - rewrite N.eqb_refl. reflexivity. }
+    assert (Hst2 : forall p v, nodes_get nd2 p = Some v -> p = par /\ v = vsb \/ p <> par /\ nodes_get nd p = Some v).
+    { intros p v. rewrite G2. destruct (N.eqb_spec p par) as [->|Hne]; [intros [= <-]; left; auto|].
+      destruct (p =? sibp); [discriminate|]. destruct (p =? del); [discriminate|].
+      intros E. right. split; [exact Hne|]. destruct (B2 p) as [E'|[E' _]]; congruence. }
+    assert (Hca2 : forall h, cached_has HO ca2 h = cached_has HO ca h).
+    { intros h. unfold ca2. destruct (cached_has HO ca (fst vsb)) eqn:Eh; [|reflexivity].
+      unfold cached_has at 1. rewrite cg_put by exact HOK. destruct (op_eqb HO h (fst vsb)) eqn:E; [|reflexivity].
+      apply HOK in E. subst h. symmetry. exact Eh. }
+    assert (Huniq2 : forall q1 q2 v1 v2, nodes_get nd2 q1 = Some v1 -> nodes_get nd2 q2 = Some v2 ->
+              fst v1 = fst v2 -> cached_has HO ca2 (fst v1) = true -> q1 = q2).
+    { intros q1 q2 v1 v2 A1 A2 Ef Hh. rewrite Hca2 in Hh.
+      destruct (Hst2 _ _ A1) as [[-> ->]|[N1 A1']], (Hst2 _ _ A2) as [[-> ->]|[N2 A2']].
+      - reflexivity.
+      - exfalso. pose proof (Huniq _ _ _ _ Hsb A2' Ef Hh) as E. subst q2.
+        rewrite G2 in A2. destruct (N.eqb_spec sibp par) as [E'|_]; [exact (N2 E')|]. rewrite N.eqb_refl in A2. discriminate.
+      - exfalso. pose proof (Huniq _ _ _ _ A1' Hsb Ef Hh) as E. subst q1.
+        rewrite G2 in A1. destruct (N.eqb_spec sibp par) as [E'|_]; [exact (N1 E')|]. rewrite N.eqb_refl in A1. discriminate.
+      - exact (Huniq _ _ _ _ A1' A2' Ef Hh). }
+    assert (Kn2 : NoDup (map fst nd2)).
+    { unfold nd2, nd1. apply keys_put, keys_del, keys_del, B3, Hk1. }
+    assert (Kc2 : NoDup (map fst ca2)).
+    { unfold ca2. destruct (cached_has HO ca (fst vsb)); [apply ckeys_put; assumption|exact Hk2]. }
+    destruct (moveUpDescendants_spec H HO HOK T rd od HT Hrd Hod nd2 ca2 Hd2 Hs2 Huniq2 Kn2 Kc2)
+      as ([nd3 ca3] & Emud & I).
+    destruct I as [I1 I2 IA IB IC ID IK1 IK2 IK3]. cbn [fst snd] in I1, I2, IA, IB, IC, ID, IK1, IK2, IK3.
+    exists nd3, ca3. split.
+    - constructor.
+      + exact I1.
+      + exact I2.
+      + rewrite ID; [rewrite G2, N.eqb_refl; reflexivity|].
+        intros j b Hj1 Hj Hb. apply rs_par_neq_U; assumption.
+      + intros j b Hj1 Hj Hb. rewrite IA by (try assumption; lia).
+        apply G2S; assumption.
+      + intros b Hb. exact (IB b Hb).
+      + intros p Hp. rewrite ID.
+        * rewrite G2. destruct (N.eqb_spec p par) as [->|_].
+          { exfalso. apply (Hp 0 0); [lia|cbn; lia|symmetry; apply rs_pU0]. }
+          destruct (N.eqb_spec p sibp) as [->|_].
+          { exfalso. destruct (posS_U T rd od HT Hrd Hod 0 0 ltac:(lia) ltac:(cbn; lia)) as (c & Hc & Ec).
+            rewrite rs_pS0 in Ec. apply (Hp (0 + 1) c); [lia|exact Hc|exact Ec]. }
+          destruct (N.eqb_spec p del) as [->|_].
+          { exfalso. destruct (posD_U T rd od HT Hrd Hod 0 0 ltac:(lia) ltac:(cbn; lia)) as (c & Hc & Ec).
+            rewrite rs_pD0 in Ec. apply (Hp (0 + 1) c); [lia|exact Hc|exact Ec]. }
+          destruct (B2 p) as [E|[_ Hbl]]; [exact E|exfalso].
+          destruct (HbelowD _ Hbl) as (j' & b' & A & B & C & ->).
+          destruct (posD_U T rd od HT Hrd Hod j' b' B C) as (c & Hc & Ec).
+          apply (Hp (j' + 1) c); [lia|exact Hc|exact Ec].
+        * intros j b Hj1 Hj Hb. apply Hp; assumption.
+      + (* cached: moved *)
+        intros j b v Hj Hb Ev Hh. destruct (N.eq_dec j 0) as [->|Hj0].
+        * assert (b = 0) by (cbn in Hb; lia). subst b. rewrite rs_pS0 in Ev. rewrite rs_pU0.
+          assert (v = vsb) by congruence. subst v.
+          rewrite IK2.
+          -- unfold ca2. rewrite Hh. rewrite cg_put by exact HOK. rewrite heqb_refl by exact HOK. reflexivity.
+          -- intros j' b' v' A B C Ev' Ef. rewrite G2S in Ev' by (try assumption; lia).
+             pose proof (Huniq _ _ _ _ Ev' Hsb Ef ltac:(rewrite Ef; exact Hh)) as E.
+             rewrite <- rs_pS0 in E.
+             exact (posS_row_neq T rd od HT Hrd Hod j' b' 0 0 ltac:(lia) C ltac:(lia) ltac:(cbn; lia) ltac:(lia) E).
+        * apply (IK1 j b v); try assumption; try lia.
+          -- rewrite G2S by (try assumption; lia). exact Ev.
+          -- rewrite Hca2. exact Hh.
+      + (* cached: the others *)
+        intros h Hno. rewrite IK2.
+        * unfold ca2. destruct (cached_has HO ca (fst vsb)); [|reflexivity].
+          rewrite cg_put by exact HOK. rewrite heqb_neq; [reflexivity|exact HOK|].
+          intros E. apply (Hno 0 0 vsb); [lia|cbn; lia|rewrite rs_pS0; exact Hsb|congruence].
+        * intros j b v Hj1 Hj Hb Ev. rewrite G2S in Ev by (try assumption; lia).
+          apply (Hno j b v); try assumption; lia.
+      + intros h. rewrite IK3. apply Hca2.
+    - unfold removeSingle. cbv zeta. cbn [fst snd]. rewrite Hnroot. rewrite Esib, Epar.
+      fold nd0. fold nd1. rewrite E1. fold nd2. rewrite Hnext.
+      change (if cached_has HO ca (fst vsb) then Some (cached_put HO (fst vsb) par ca) else Some ca)
+        with (if cached_has HO ca (fst vsb) then Some (cached_put HO (fst vsb) par ca) else Some ca).
+      assert (Eoca : (if cached_has HO ca (fst vsb) then Some (cached_put HO (fst vsb) par ca) else Some ca)
+                     = Some ca2).
+      { unfold ca2. destruct (cached_has HO ca (fst vsb)); reflexivity. }
+      rewrite Eoca. rewrite Emud. reflexivity.
+  Qed.
+End RemoveSingleMoves.
+(** * 10. Coordinates below the parent of the deleted node, as positions *)
+Lemma under_decomp c d : under c d ->
+  snd d = snd c * 2 ^ N.of_nat (fst c - fst d) + snd d mod 2 ^ N.of_nat (fst c - fst d) /\
+  snd d mod 2 ^ N.of_nat (fst c - fst d) < 2 ^ N.of_nat (fst c - fst d).
+Proof.
+  intros [Hr E]. unfold p2 in E. split; [|apply N.mod_lt, pow2_nz].
+  rewrite <- E. rewrite N.mul_comm. apply N.div_mod'.
+Qed.
+
+Lemma under_compose (c d : nat * N) b : (fst d <= fst c)%nat ->
+  snd d = snd c * 2 ^ N.of_nat (fst c - fst d) + b -> b < 2 ^ N.of_nat (fst c - fst d) -> under c d.
+Proof.
+  intros Hr E Hb. split; [exact Hr|]. unfold p2. rewrite E.
+  rewrite N.div_add_l by apply pow2_nz. rewrite (N.div_small b) by exact Hb. lia.
+Qed.
+
+Section CoordPos.
+  Variable T : N.
+  Variable rd : nat.
+  Variable od : N.
+  Hypothesis HT : T <= 63.
+  Hypothesis Hrd : N.of_nat rd < T.
+  Hypothesis Hod : od < 2 ^ (T - N.of_nat rd).
+  Notation rdN := (N.of_nat rd).
+  Notation pU := (posU T (N.of_nat rd) od).
+  Notation pS := (posS T (N.of_nat rd) od).
+
+  Lemma cp_S ry oy : under (rd, N.lxor od 1) (ry, oy) ->
+    exists j b, j <= rdN /\ b < 2 ^ j /\ j = N.of_nat (rd - ry) /\
+      gpos T (N.of_nat ry) oy = pS j b /\
+      gpos T (N.of_nat (S ry)) (rmbit oy (N.of_nat (rd - ry))) = pU j b.
+  Proof.
+    intros U. destruct (under_decomp _ _ U) as [E Hb]. destruct U as [Hr _]. cbn [fst snd] in *.
+    exists (N.of_nat (rd - ry)), (oy mod 2 ^ N.of_nat (rd - ry)).
+    split; [lia|]. split; [exact Hb|]. split; [reflexivity|]. unfold posS, posU. split.
+    - f_equal; [lia|exact E].
+    - rewrite E at 1. rewrite rmbit_block by exact Hb.
+      destruct (bl_sbo T rdN od HT Hrd Hod) as (_ & -> & _). f_equal. lia.
+  Qed.
+
+  Lemma cp_U ry oy : under (S rd, od / 2) (ry, oy) -> (ry, oy) <> (S rd, od / 2) ->
+    exists j b, 1 <= j /\ j <= rdN + 1 /\ b < 2 ^ j /\ gpos T (N.of_nat ry) oy = pU j b.
+  Proof.
+    intros U Hne. destruct (under_decomp _ _ U) as [E Hb]. destruct U as [Hr Ed]. cbn [fst snd] in *.
+    assert (Hlt : (ry < S rd)%nat).
+    { destruct (Nat.eq_dec ry (S rd)) as [->|]; [|lia]. exfalso. apply Hne.
+      rewrite Nat.sub_diag, p2_0, N.div_1_r in Ed. congruence. }
+    exists (N.of_nat (S rd - ry)), (oy mod 2 ^ N.of_nat (S rd - ry)).
+    split; [lia|]. split; [lia|]. split; [exact Hb|]. unfold posU. f_equal; [lia|exact E].
+  Qed.
+
+  Lemma cp_U0 : gpos T (N.of_nat (S rd)) (od / 2) = pU 0 0.
+  Proof. unfold posU. rewrite N.sub_0_r, N.pow_0_r, N.mul_1_r, N.add_0_r. f_equal. lia. Qed.
+
+  Lemma cp_U_inv ry oy j b : N.of_nat ry <= T -> oy < 2 ^ (T - N.of_nat ry) ->
+    j <= rdN + 1 -> b < 2 ^ j -> gpos T (N.of_nat ry) oy = pU j b ->
+    under (S rd, od / 2) (ry, oy) /\ N.of_nat ry = rdN + 1 - j /\ oy = od / 2 * 2 ^ j + b.
+  Proof.
+    intros A B Hj Hb E. destruct (posU_valid T rdN od HT Hrd Hod j b Hj Hb) as [C D].
+    destruct (gpos_inj T _ _ _ _ A B C D E) as [Er Eo]. split; [|auto].
+    apply (under_compose (S rd, od / 2) (ry, oy) b); cbn [fst snd]; [lia| |].
+    - rewrite Eo. f_equal. f_equal. f_equal. lia.
+    - replace (N.of_nat (S rd - ry)) with j by lia. exact Hb.
+  Qed.
+
+  Lemma cp_S_inv ry oy j b : N.of_nat ry <= T -> oy < 2 ^ (T - N.of_nat ry) ->
+    j <= rdN -> b < 2 ^ j -> gpos T (N.of_nat ry) oy = pS j b ->
+    under (rd, N.lxor od 1) (ry, oy) /\ N.of_nat ry = rdN - j.
+  Proof.
+    intros A B Hj Hb E. destruct (posS_valid T rdN od HT Hrd Hod j b Hj Hb) as [C D].
+    destruct (gpos_inj T _ _ _ _ A B C D E) as [Er Eo]. split; [|exact Er].
+    apply (under_compose (rd, N.lxor od 1) (ry, oy) b); cbn [fst snd]; [lia| |].
+    - rewrite Eo. f_equal. f_equal. f_equal. lia.
+    - replace (N.of_nat (rd - ry)) with j by lia. exact Hb.
+  Qed.
+
+  (** the sibling of a coordinate strictly below the parent lies below the parent *)
+  Lemma under_sib c ry oy : under c (ry, oy) -> (ry < fst c)%nat -> under c (ry, N.lxor oy 1).
+  Proof.
+    intros U Hlt. destruct (under_sib_par ry oy) as [A B].
+    assert (Up : under c (S ry, oy / 2)) by (apply under_par; assumption).
+    exact (under_trans _ _ _ Up A).
+  Qed.
+End CoordPos.
